@@ -483,7 +483,10 @@ def seed_alphabet(n):
     zero = [('0', 0), ('2^n', N), ('-2^n', -N), ('3*2^n', 3 * N), ('2^(n+5)', N << 5), ('-2^(n+40)', -(N << 40))]
     nonzero = [('-3', -3), ('2^n+5', N + 5), ('2^(n+3)+1', (N << 3) + 1), ('2^64+3', (1 << 64) + 3), ('-1', -1),
                ('2^n-1', N - 1), ('2^n+1', N + 1), ('-2^n+1', -N + 1), ('2^(n-1)', N >> 1), ('-(2^n-1)', -(N - 1)),
-               ('5*2^n+2^(n-1)', 5 * N + (N >> 1)), ('1', 1), ('2', 2)]
+               ('5*2^n+2^(n-1)', 5 * N + (N >> 1)), ('1', 1), ('2', 2),
+               # machine-word boundaries: a seed that is not reduced before it meets numpy integers behaves differently here
+               ('2^31+5', (1 << 31) + 5), ('2^32-1', (1 << 32) - 1), ('2^62+1', (1 << 62) + 1), ('2^63-1', (1 << 63) - 1),
+               ('2^63+5', (1 << 63) + 5), ('2^64-1', (1 << 64) - 1), ('-(2^63)-7', -(1 << 63) - 7), ('2^100+9', (1 << 100) + 9)]
     return [('zero', a, b) for a, b in zero] + [('nonzero', a, b) for a, b in nonzero]
 
 
